@@ -46,6 +46,8 @@ def one_batch(seed: int) -> list:
     for _ in range(4):
         x = rng.randint(0, w - 1)
         y = rng.randint(0, h - 1)
+        if rng.random() < 0.3:
+            x = y = 0
         z = rng.randint(x, w)  # may be one beyond the last column
         t = rng.randint(y, h)
         a = {"x": x, "y": y, "z": z, "t": t}
@@ -62,6 +64,9 @@ def one_batch(seed: int) -> list:
         area_forms = [("str", s_area), ("tuple4", (x, y, z, t)), ("list4", [x, y, z, t]), ("spaces", f" {alpha(x)}{y + 1} : {alpha(z)}{t + 1} ")]
         if z < w and t < h:
             area_forms.append(("neg", (neg(x, w), neg(y, h), neg(z, w), neg(t, h))))
+        if x == 0 and y == 0:
+            # the start left open
+            area_forms += [("open-str", f":{alpha(z)}{t + 1}"), ("open-tuple", (None, None, z, t)), ("open-x", (None, 0, z, t))]
         for form, c in area_forms:
             rec("get_values", form, a, lambda c=c: [vals(r) for r in table.get_values(c)])
             # the generator form of the same read
